@@ -35,11 +35,14 @@ pub(crate) fn scan_dimen<S: TexlangState>(
                 InternalNumber::Integer(i) => {
                     (negative * i.signum(), i.saturating_abs(), Scaled::ZERO)
                 }
+                // TeX.2021.449: an internal dimension goes to attach_sign, where it is
+                // range checked like any other dimension (a register can exceed max_dimen
+                // after \advance, which wraps silently).
                 InternalNumber::Dimen(d) => {
-                    return Ok(d * negative);
+                    return attach_sign(input, first_token, d, negative);
                 }
                 InternalNumber::Glue(g) => {
-                    return Ok(g.width * negative);
+                    return attach_sign(input, first_token, g.width, negative);
                 }
             }
         }
@@ -178,6 +181,20 @@ pub(crate) fn scan_and_apply_units<S: TexlangState>(
     match Scaled::new(integer_part, fractional_part, scaled_unit) {
         Ok(s) => Ok(s),
         Err(_) => handle_overflow(input, first_token, false),
+    }
+}
+
+/// The end of TeX.2021.448 for an internal dimension.
+fn attach_sign<S: TexlangState>(
+    input: &mut vm::ExpandedStream<S>,
+    first_token: token::Token,
+    d: common::Scaled,
+    negative: i32,
+) -> txl::Result<common::Scaled> {
+    if d.0.unsigned_abs() > common::Scaled::MAX_DIMEN.0 as u32 {
+        Ok(handle_overflow(input, first_token, false)? * negative)
+    } else {
+        Ok(d * negative)
     }
 }
 
